@@ -75,6 +75,23 @@ Theorem C19_orphans_exact_default : forall w k,
 Proof. exact orphans_exact_default. Qed.
 Print Assumptions C19_orphans_exact_default.
 
+(* workspaces where entries of jobs/<task>/ are links to job directories (left by `deprecated list --fix`):
+   a real job directory is removed exactly when no index entry leads to it, by its own name or through a link *)
+Theorem C19_orphans_links_exact : forall w links c io k,
+  In k (orphans_clean_l w links c io) <->
+  c = true /\ (exists j, In j (w_jobs w) /\ job_key j = k) /\ ~ referenced_l w links io k.
+Proof. exact orphans_l_exact. Qed.
+Print Assumptions C19_orphans_links_exact.
+
+Theorem C19_orphans_links_keeps_referenced : forall w links c io x k',
+  In x (w_xps w) -> In k' (x_jobs x) -> ~ In (resolve links k') (orphans_clean_l w links c io).
+Proof. exact orphans_l_keeps_referenced. Qed.
+Print Assumptions C19_orphans_links_keeps_referenced.
+
+Theorem C19_orphans_links_none : forall w c io, orphans_clean_l w [] c io = orphans_clean w c io.
+Proof. exact orphans_l_nolinks. Qed.
+Print Assumptions C19_orphans_links_none.
+
 (* ---- records of the defects of the pinned commit (literal model) -------- *)
 Theorem C19_in_always_false_refuted : exists v l e,
   meaning_atom (AIn v l) e /\ eval_prefix (single (AIn v l)) e = Some false.
@@ -115,3 +132,13 @@ Theorem C19_clean_running_refuted : exists w o j,
   In (job_key j) (clean_prefix w o).
 Proof. exact clean_running_refuted. Qed.
 Print Assumptions C19_clean_running_refuted.
+
+(* the code before fixes/C19-6, literally: entries compared by relative path, rmtree on whatever is in no index *)
+Theorem C19_orphans_through_link_refuted : exists w links k l,
+  orphans_clean_l_prefix w links true false = Some l /\ In k l /\ referenced_l w links false k.
+Proof. exact orphans_through_link_refuted. Qed.
+Print Assumptions C19_orphans_through_link_refuted.
+
+Theorem C19_orphans_link_raises_prefix : exists w links, orphans_clean_l_prefix w links true false = None.
+Proof. exact orphans_link_raises_prefix. Qed.
+Print Assumptions C19_orphans_link_raises_prefix.
